@@ -52,6 +52,12 @@ def build(cell, dt):
 
         def J(x):
             return np.diag(2 * x)
+    elif kind == "quadm1":
+        def F(x):
+            return x ** 2 - 1
+
+        def J(x):
+            return np.diag(2 * x)
     else:
         def F(x):
             out = x[0] - x
@@ -64,7 +70,11 @@ def build(cell, dt):
             M[:, 0] += 1
             M[0, :] = 2 * x
             return M
-    if cell["guess"] == "good":
+    if cell["guess"] == "nearSingular":
+        x0 = np.asarray([1e-6 * (1.0 + 0.25 * i) for i in range(n)], dtype=dt)
+    elif cell["guess"] == "good" and kind == "quadm1":
+        x0 = np.full(n, 0.8, dtype=dt)
+    elif cell["guess"] == "good":
         x0 = r + np.asarray(0.1, dtype=dt) if kind != "exp" else np.full(n, 0.5, dtype=dt)
     elif cell["guess"] == "bad":
         x0 = np.asarray([3.0 + 0.5 * i for i in range(n)], dtype=dt) if kind != "exp" else np.full(n, 30.0, dtype=dt) + np.arange(n, dtype=dt) * 0.1
@@ -127,9 +137,9 @@ def cell_job(cell):
 
 def check(run, replay=None):
     thorough = run.tier == "thorough"
-    run.rule = ("cells = lattice generated by TLC: system kind (3 with a root incl. singular Jacobian at the root, 2 without) x n in {1,2,3,5,8,12} x "
+    run.rule = ("cells = lattice generated by TLC: system kind (4 with a root incl. singular Jacobian at the root, 2 without) x n in {1,2,3,5,8,12} x "
                 "shape (vector, column, matrix) x solver (newtontrustregion, hybrj, nonlinear_roots) x dtype (float64 -> MINPACK, longdouble -> dogleg) x "
-                "Jacobian (user, finite differences) x guess (good, bad, singular); non-trivial = cell that reports success or has no root; distinct by cell")
+                "Jacobian (user, finite differences) x guess (good, bad, singular, next to a singular Jacobian); non-trivial = cell that reports success or has no root; distinct by cell")
     gen = run.generate("Systems", workers=2)
     cells = gen["cells"]
     if not thorough:
